@@ -55,7 +55,7 @@ func bucket(n int) string {
 func TestC13(t *testing.T) {
 	c := h.New(t, "C13")
 	defer c.Finish()
-	c.Rule("(a) atomicity: 2-3 threads x 1-4 operations (define set get delete delete-nearest define-type type copy-then-read-all value/type symbol listing String; NewModule(m), Get/Type through a module fetched from the scope, GetEnvFromPath with 1-3 segments from the scope or its child, DefineGlobal/DefineGlobalValue/DefineGlobalReflectType/DefineGlobalType called on the scope or its child) on one shared scope with a parent, names a b c (values and types), m (bound to a module or not at all, shared scope only) and the type name int64 (a Go type name when no scope binds it); the shared scope may initially bind m to a module and the parent may bind sm to the shared scope itself; these added operations, names and initial bindings are drawn in 2 of 5 programs (at half of the draws), the other programs use the earlier operations only; a define-global is only generated for a name whose presence in the shared scope's own table never changes in the program (the statement's parent is read-only: an operation that walks both scopes is compared only when its answer depends on one table); String is not generated when a module can be bound, every written value unique, random initial contents (shared value table never created, or created and emptied, or filled); in 1 of 6 programs two threads are made to delete-nearest one name bound in both scopes, in 1 of 4 of the wider programs one thread is made to create the module m and another to fetch it and look a name up through it; schedule = list of 0-80 ints in 0..5; at each scheduling decision the enabled threads are listed in thread order starting with the thread that ran last (if it can continue) and choice mod number-of-enabled-threads picks one (0 = no switch; also used once the list is exhausted); yield points = every Lock/RLock/Unlock/RUnlock of package env; non-trivial = >=1 preemption (switch away from a thread that could have continued) and two threads touch the same name of the same table with >=1 writer (copy/listing/String touch every name); distinct by program + executed schedule")
+	c.Rule("(a) atomicity: 2-3 threads x 1-4 operations (define set get delete delete-nearest define-type type copy-then-read-all value/type symbol listing String; NewModule(m), Get/Type/Set/Addr/DeleteGlobal through a module fetched from the scope, GetEnvFromPath with 1-3 segments from the scope or its child, DefineGlobal/DefineGlobalValue/DefineGlobalReflectType/DefineGlobalType called on the scope or its child) on one shared scope with a parent, names a b c (values and types), m (bound to a module or not at all, shared scope only) and the type name int64 (a Go type name when no scope binds it); the shared scope may initially bind m to a module and the parent may bind sm to the shared scope itself; these added operations, names and initial bindings are drawn in 2 of 5 programs (at half of the draws), the other programs use the earlier operations only; a define-global is only generated for a name whose presence in the shared scope's own table never changes in the program (the statement's parent is read-only: an operation that walks both scopes is compared only when its answer depends on one table); String is not generated when a module can be bound, every written value unique, random initial contents (shared value table never created, or created and emptied, or filled); in 1 of 6 programs two threads are made to delete-nearest one name bound in both scopes, in 1 of 4 of the wider programs one thread is made to create the module m and another to fetch it and look a name up through it; in 1 of 4 of the wider programs one thread is made to resolve the path sm/m (down through the shared scope into the module) and another to fetch m and do an operation through it that walks up the chain (Set 3 in 7, Addr, DeleteGlobal, Get, Type); schedule = list of 0-80 ints in 0..5; at each scheduling decision the enabled threads are listed in thread order starting with the thread that ran last (if it can continue) and choice mod number-of-enabled-threads picks one (0 = no switch; also used once the list is exhausted); yield points = every Lock/RLock/Unlock/RUnlock of package env; non-trivial = >=1 preemption (switch away from a thread that could have continued) and two threads touch the same name of the same table with >=1 writer (copy/listing/String touch every name); distinct by program + executed schedule")
 	c.Rule("(b) race: the same programs, real goroutines (start order and start barrier varied per repetition), real locks, GOMAXPROCS 16, race detector with halt_on_error in a child process; evaluations count program x repetition; non-trivial = two goroutines touch the same name with >=1 writer; distinct by program")
 
 	withString := stringUsable()
@@ -125,7 +125,12 @@ func TestC13(t *testing.T) {
 				return h.Failf("C13|panic", "a thread panicked in %s: %s\n%s", out.panicOp, out.panicked, trace())
 			}
 			if out.deadlock != "" {
-				return h.Failf("C13|deadlock", "no thread can run: %s\n%s", out.deadlock, trace())
+				sig := "C13|deadlock"
+				if out.deadlockScopes >= 2 {
+					// a cycle over the locks of several scopes (each blocked thread waits for a different scope's lock)
+					sig += "|threads-wait-for-locks-of-different-scopes"
+				}
+				return h.Failf(sig, "no thread can run: %s\n%s", out.deadlock, trace())
 			}
 			if out.noLock != "" {
 				// an operation that took no lock under the hook: either a lock-free path (then it is one
